@@ -1,0 +1,54 @@
+//! Verification hooks, compiled only with `--cfg rten_verif`.
+//!
+//! A process-wide event sink. Instrumented code calls [`emit`] at its
+//! linearization points (while holding the lock that protects the state being
+//! reported); the sink assigns a global sequence number under its own mutex,
+//! so the order of events is the order of the critical sections. Nothing is
+//! emitted unless a harness has installed a sink with [`set_sink`].
+
+use std::cell::Cell;
+use std::sync::Mutex;
+use std::sync::atomic::{AtomicBool, Ordering};
+
+type Sink = Box<dyn FnMut(u64, u32, &str) + Send>;
+
+static ENABLED: AtomicBool = AtomicBool::new(false);
+static SINK: Mutex<(u64, Option<Sink>)> = Mutex::new((0, None));
+
+thread_local! {
+    static THREAD_TAG: Cell<u32> = const { Cell::new(0) };
+}
+
+/// Install (or remove) the event sink. The sink receives
+/// `(sequence number, thread tag, event text)`.
+pub fn set_sink(sink: Option<Sink>) {
+    let mut guard = SINK.lock().unwrap_or_else(|e| e.into_inner());
+    ENABLED.store(sink.is_some(), Ordering::SeqCst);
+    guard.1 = sink;
+}
+
+/// Tag events emitted by the current thread.
+pub fn set_thread_tag(tag: u32) {
+    THREAD_TAG.with(|t| t.set(tag));
+}
+
+/// Return true if a sink is installed.
+#[inline]
+pub fn enabled() -> bool {
+    ENABLED.load(Ordering::Relaxed)
+}
+
+/// Emit an event. `make` is only called if a sink is installed.
+pub fn emit(make: impl FnOnce() -> String) {
+    if !enabled() {
+        return;
+    }
+    let text = make();
+    let tag = THREAD_TAG.with(|t| t.get());
+    let mut guard = SINK.lock().unwrap_or_else(|e| e.into_inner());
+    guard.0 += 1;
+    let seq = guard.0;
+    if let Some(sink) = guard.1.as_mut() {
+        sink(seq, tag, &text);
+    }
+}
